@@ -1605,3 +1605,89 @@ func init() {
 		})
 	}
 }
+
+// ---------------------------------------------------------------- xpath navigation does not modify the tree (C11)
+
+// navigatorPure: the reference DOM answers queries without changing the document. The methods of the type that
+// implements xpath.NodeNavigator, and the repository functions they call, may write to the navigator's own fields (its
+// cursor) and to fresh objects only. A write into a tree node during navigation — a memo of a node's string-value, a
+// cached child count — ties later answers to the moment the memo was taken; the streaming readers keep adding and
+// removing nodes under the same ancestors (seed C11-9: string-value memoised on the node, invalidated one level up only).
+func navigatorPure(c *core.Ctx, rule string) {
+	c.SSA()
+	idr := c.Pkg("idr")
+	xp := c.AnyPkg("github.com/antchfx/xpath")
+	if idr == nil || xp == nil {
+		c.Unresolved(rule, "packages idr / antchfx/xpath", "not loaded")
+		return
+	}
+	navI, _ := xp.Types.Scope().Lookup("NodeNavigator").Type().Underlying().(*types.Interface)
+	if navI == nil {
+		c.Unresolved(rule, "xpath.NodeNavigator", "interface not found")
+		return
+	}
+	var navT *types.Named
+	for _, name := range idr.Types.Scope().Names() {
+		if tn, ok := idr.Types.Scope().Lookup(name).(*types.TypeName); ok {
+			if n, ok := tn.Type().(*types.Named); ok && types.Implements(types.NewPointer(n), navI) {
+				if _, isIface := n.Underlying().(*types.Interface); !isIface {
+					navT = n
+				}
+			}
+		}
+	}
+	if navT == nil {
+		c.Unresolved(rule, "navigator type", "no type of package idr implements xpath.NodeNavigator")
+		return
+	}
+	// methods of the navigator + repository callees
+	scope := map[*ssa.Function]bool{}
+	var add func(f *ssa.Function, d int)
+	add = func(f *ssa.Function, d int) {
+		if f == nil || scope[f] || f.Blocks == nil || d > 6 || !core.InRepo(core.FuncPkg(f)) {
+			return
+		}
+		scope[f] = true
+		for _, ci := range core.Calls(f) {
+			add(ci.Common().StaticCallee(), d+1)
+		}
+		for _, a := range f.AnonFuncs {
+			add(a, d+1)
+		}
+	}
+	ms := c.SSA().MethodSets.MethodSet(types.NewPointer(navT))
+	for i := 0; i < ms.Len(); i++ {
+		if fn := c.SSA().MethodValue(ms.At(i)); fn != nil {
+			add(fn, 0)
+		}
+	}
+	nW := 0
+	for _, f := range core.SortedFuncs(scope) {
+		for _, w := range core.Writes(f) {
+			nW++
+			if core.IsFresh(w.Root) {
+				continue
+			}
+			if w.Owner != nil && types.Identical(w.Owner, navT) && w.Kind == "field" && len(w.Chain) == 1 {
+				continue // the navigator's own cursor fields
+			}
+			if w.Kind == "struct" && w.Owner != nil && types.Identical(w.Owner, navT) {
+				continue
+			}
+			what := "memory that is not the navigator's own"
+			if w.Owner != nil && w.Field != nil {
+				what = "field " + w.Owner.Obj().Name() + "." + w.Field.Name()
+			}
+			c.Bad(rule, core.FuncKey(f)+" writes during navigation", w.Pos, "xpath navigation writes to "+what+": evaluating a query changes state that later queries read, so an answer depends on which queries ran before and on when, relative to the reader adding/removing nodes, they ran")
+		}
+	}
+	c.OK(rule, "navigation is read-only", navT.Obj().Pos(), fmt.Sprintf("%d function(s) on the navigation path, %d store(s), all into the navigator itself or fresh objects unless reported", len(scope), nW))
+}
+
+func init() {
+	wrapRun("C11", func(c *core.Ctx) {
+		if c.CountRule("R11g") == 0 {
+			navigatorPure(c, "R11g")
+		}
+	})
+}
